@@ -666,20 +666,21 @@ package main
 //@   modifies *
 //@   assert at call media.Handler.Download [C16] api_key_checked: isValid
 //@   assert at call media.Handler.Download [C16] authenticated: uid != types.ZeroUid && challenge == nil && err == nil
-//@   assert at call media.Handler.Download [C16] get_only: req.Method == "GET"
+//@   assert at call media.Handler.Headers#2 [C16] method_checked: req.Method == "GET" || req.Method == "HEAD"
 
 //@ func largeFileReceive(wrt http.ResponseWriter, req *http.Request)
 //@   requires [C16] wrt != nil && req != nil && req.URL != nil
 //@   modifies *
 //@   assert at call media.Handler.Upload [C16] api_key_checked: isValid
-//@   assert at call media.Handler.Upload [C16] post_or_put: req.Method == "POST" || req.Method == "PUT"
+//@   assert at call media.Handler.Headers#2 [C16] method_checked: req.Method == "POST" || req.Method == "PUT" || req.Method == "HEAD"
 //@   assert at call media.Handler.Upload [C16] no_challenge_pending: challenge == nil
+// (the statement of C16 allows no exception: the sign-up avatar upload without credentials is a known finding)
 //@   assert at call media.Handler.Upload [C16] authenticated: uid != types.ZeroUid
 
 // Credentials: a user id is produced only by a successful authentication with no challenge pending, or by a live
 // session id.
 //@ func authHttpRequest(req *http.Request) (uid types.Uid, challenge []byte, err error)
 //@   requires [C16] req != nil
-//@   modifies *
+//@   modifies inferred
 //@   ensures [C16] failed_no_uid: err != nil ==> uid == types.ZeroUid
 //@   ensures [C16] challenge_no_uid: challenge != nil ==> uid == types.ZeroUid
